@@ -38,7 +38,7 @@ CASE_TIMEOUT = {'quick': 200, 'thorough': 400}
 
 
 def plan(tier, seed):
-    n = 160 if tier == 'quick' else 8000
+    n = 640 if tier == 'quick' else 8000
     kinds = ['mesh', 'mesh', 'long', 'mesh', 'raman', 'multiband', 'mesh', 'long', 'p2p', 'mesh']
     cases = [{'idx': i, 'kind': kinds[i % len(kinds)]} for i in range(n)]
     k0 = len(cases)
